@@ -74,7 +74,34 @@ func (fr *Frame) resolveCallee(cc *ssa.CallCommon) *calleeInfo {
 			}
 		}
 	}
+	// assumptions local to the package of the function under verification come first
+	if tp := fr.topFrame().fn; tp != nil {
+		pk := ""
+		for f := tp; f != nil; f = f.Parent() {
+			if f.Pkg != nil {
+				pk = f.Pkg.Pkg.Path()
+				break
+			}
+		}
+		if pk == "" {
+			if p := V.pkgOfKey(funcKey(originOf(tp))); p != nil {
+				pk = p.Path()
+			}
+		}
+		if la := V.CS.LocalAssumes[pk]; la != nil {
+			for _, k := range ci.keys {
+				if fc, ok := la[k]; ok {
+					ci.fc = fc
+					ci.key = k
+					break
+				}
+			}
+		}
+	}
 	for _, k := range ci.keys {
+		if ci.fc != nil {
+			break
+		}
 		if fc, ok := V.CS.Funcs[k]; ok {
 			ci.fc = fc
 			ci.key = k
